@@ -261,6 +261,10 @@ def run(ctx, chk):
                     flt = ef['args'][1]
                 if nm == 'map':
                     mp = ef['args'][1]
+                on_chain = any(x in fmt(ef['args'][0]) for x in ('map#', 'filter#', 'keys#')) if ef['args'] else False
+                if nm == 'for_each' and on_chain and 'map#' not in fmt(ef['args'][0]) and len(ef['args']) > 1:
+                    mp = ef['args'][1]          # the sends are made by the closure of a terminal for_each
+                    consumed = True
                 if nm in ('collect', 'for_each', 'count', 'last', 'fold', 'for_each_mut') and 'map#' in fmt(ef['args'][0]):
                     consumed = True
                     if nm == 'collect':
@@ -283,15 +287,17 @@ def run(ctx, chk):
         # filter closure: true iff id != MainThread
         if flt == 'explicit-loop':
             pass
-        elif flt is not None and flt[0] == 'agg' and flt[1].startswith('closure:'):
-            fbod = fb.body(flt[1][len('closure:'):])
+        elif flt is not None and ((flt[0] == 'agg' and flt[1].startswith('closure:')) or
+                                  (flt[0] == 'fn' and fb.body(mir.callee_name(flt[1])) is not None)):
+            is_fn = flt[0] == 'fn'
+            fbod = fb.body(mir.callee_name(flt[1])) if is_fn else fb.body(flt[1][len('closure:'):])
             keep = {}
             if fbod is not None:
                 chk.saw(fbod)
                 for vi, vn in ids.items():
                     arg = ('ref', (('H', 900 + vi), ()))
                     e3 = common.mk_engine(fb)
-                    for q in e3.run(fbod, args=[flt, ('ref', (('H', 800 + vi), ()))],
+                    for q in e3.run(fbod, args=([] if is_fn else [flt]) + [('ref', (('H', 800 + vi), ()))],
                                     store={(('H', 800 + vi), ()): arg, (('H', 900 + vi), ()): ('agg', _ENUM_KEY.get('::ChannelId', 'clock_bound_d::ChannelId'), vn, ())}):
                         if q.kind == 'return':
                             keep[vn] = q.value
